@@ -153,6 +153,15 @@ CHECKS = {
         'note': 'Processes are modelled (real eligibility test of the file, behaviour fast/failing/hanging chosen by the harness); timers are virtual.',
         'parts': [McPart('mc', 'C19', 'cmd/whawty-auth', ['harness/agentmc'], AGENT_RW)],
     },
+    'C05': {
+        'level': 'model_checking',
+        'engine': 'seqx+mc+pamx',
+        'technique': 'exhaustive enumeration of client byte streams x deliveries x callback outcomes on the real per-connection handler; exhaustive schedule exploration of concurrent connections on the rewritten accept loop; replies replayed into the Go client decoder and the compiled PAM module',
+        'text': 'Every stream/delivery/callback cell is handled by the real handler over a scripted connection: at most one callback call with exactly the decoded fields, exactly one well-formed length-prefixed reply, then close; positive only if decoded completely and approved without error; every reply decodes with the Go client and the PAM module to the verdict. Concurrent connections are explored under the controlled scheduler: no connection ever sees another one\'s reply.',
+        'note': 'Connections are in-memory objects (kernel socket buffering is exercised by C04 over a real unix socket).',
+        'parts': [GoTest('streams', 'sasl', ['harness/saslseq'], '^TestC05$'), PamxPart('pam-replies', mode='replies', producer='goreplies.bin'),
+                  McPart('mc', 'C05', 'sasl', ['harness/saslmc'], {'imports': {}})],
+    },
     'C13': {
         'level': 'exploration',
         'engine': 'seqx+pamx',
